@@ -28,11 +28,171 @@ func c02Stored(t *testing.T, out *vfOut, want func(mode string) bool, gf VfC02GF
 	}
 }
 
+// ---------------------------------------------------------------------------
+// exhaustive small-scope enumeration (group "enum")
+
+type c02Shape struct {
+	filter string
+	alias  string
+	jump   [][2]string
+}
+
+var c02EnumDecls = []VfC02Decl{{Name: "f1", Kind: "VfC02KA"}, {Name: "f2", Kind: "VfC02KB"}}
+var c02EnumResults = []string{"", "r1", "r2"}
+
+// c02Universe returns the node shapes of one universe: "full" (153 shapes:
+// filter f1|f2|END x alias ""|a|b x jumpIf r1,r2 -> none|END|a|b|f2), "mid"
+// (26 shapes) or "small" (10 shapes).
+func c02Universe(name string) []c02Shape {
+	var out []c02Shape
+	switch name {
+	case "full":
+		targets := []string{"", "END", "a", "b", "f2"}
+		for _, f := range []string{"f1", "f2"} {
+			for _, a := range []string{"", "a", "b"} {
+				for _, t1 := range targets {
+					for _, t2 := range targets {
+						sh := c02Shape{filter: f, alias: a}
+						if t1 != "" {
+							sh.jump = append(sh.jump, [2]string{"r1", t1})
+						}
+						if t2 != "" {
+							sh.jump = append(sh.jump, [2]string{"r2", t2})
+						}
+						out = append(out, sh)
+					}
+				}
+			}
+		}
+		for _, a := range []string{"", "a", "b"} {
+			out = append(out, c02Shape{filter: "END", alias: a})
+		}
+	case "mid":
+		jumps := [][][2]string{nil, {{"r1", "a"}}, {{"r1", "END"}}, {{"r2", "f2"}}, {{"r1", "a"}, {"r2", "END"}}, {{"r2", "a"}}}
+		for _, f := range []string{"f1", "f2"} {
+			for _, a := range []string{"", "a"} {
+				for _, j := range jumps {
+					out = append(out, c02Shape{filter: f, alias: a, jump: j})
+				}
+			}
+		}
+		out = append(out, c02Shape{filter: "END"}, c02Shape{filter: "END", alias: "a"})
+	default:
+		out = []c02Shape{
+			{filter: "f1"},
+			{filter: "f1", jump: [][2]string{{"r1", "a"}}},
+			{filter: "f1", jump: [][2]string{{"r1", "a"}, {"r2", "END"}}},
+			{filter: "f1", jump: [][2]string{{"r2", "f2"}}},
+			{filter: "f2"},
+			{filter: "f2", alias: "a"},
+			{filter: "f2", alias: "a", jump: [][2]string{{"r2", "END"}}},
+			{filter: "f1", alias: "a", jump: [][2]string{{"r1", "f2"}}},
+			{filter: "END"},
+			{filter: "END", alias: "a"},
+		}
+	}
+	return out
+}
+
+func c02EnumCase(shapes []c02Shape, idx []int) VfC02EnumIn {
+	in := VfC02EnumIn{Results: c02EnumResults}
+	in.Spec.Decls = append([]VfC02Decl(nil), c02EnumDecls...)
+	for _, k := range idx {
+		sh := shapes[k]
+		nd := VfC02Node{Filter: sh.filter, Alias: sh.alias}
+		switch sh.alias { // the namespace follows the alias, so that it varies without multiplying the space
+		case "a":
+			nd.Ns = "n1"
+		case "b":
+			nd.Ns = "n2"
+		}
+		if len(sh.jump) > 0 {
+			nd.JumpIf = map[string]string{}
+			for _, j := range sh.jump {
+				nd.JumpIf[j[0]] = j[1]
+			}
+		}
+		if sh.filter != BuiltInFilterEnd {
+			in.Len++
+		}
+		in.Spec.Flow = append(in.Spec.Flow, nd)
+	}
+	return in
+}
+
+// c02EnumAll calls emit for every flow of length n over the shapes.
+func c02EnumAll(shapes []c02Shape, n int, emit func(idx []int)) {
+	idx := make([]int, n)
+	for {
+		emit(idx)
+		k := n - 1
+		for k >= 0 {
+			idx[k]++
+			if idx[k] < len(shapes) {
+				break
+			}
+			idx[k] = 0
+			k--
+		}
+		if k < 0 {
+			return
+		}
+	}
+}
+
+func c02Enum(t *testing.T, out *vfOut, r *vfRand, n int) {
+	emit := func(tag string, shapes []c02Shape) func(idx []int) {
+		return func(idx []int) {
+			in := c02EnumCase(shapes, idx)
+			obs := VfC02RunEnum(&in)
+			out.Emit(vfCase{ID: fmt.Sprintf("enum-%s-%v", tag, idx), Src: "gen", Grp: "enum", In: in, Obs: obs})
+		}
+	}
+	full, mid, small := c02Universe("full"), c02Universe("mid"), c02Universe("small")
+	if vfTier() == "thorough" {
+		c02EnumAll(full, 1, emit("full", full))
+		c02EnumAll(full, 2, emit("full", full))
+		c02EnumAll(mid, 3, emit("mid", mid))
+		c02EnumAll(small, 4, emit("small", small))
+		return
+	}
+	// quick tier: a random sample of the same universes
+	for i := 0; i < n; i++ {
+		rr := r.Fork(1000000 + i)
+		var shapes []c02Shape
+		var tag string
+		var l int
+		switch rr.Intn(4) {
+		case 0:
+			shapes, tag, l = full, "full", 1+rr.Intn(2)
+		case 1:
+			shapes, tag, l = full, "full", 2
+		case 2:
+			shapes, tag, l = mid, "mid", 3
+		default:
+			shapes, tag, l = small, "small", 4
+		}
+		idx := make([]int, l)
+		for k := range idx {
+			idx[k] = rr.Intn(len(shapes))
+		}
+		emit(tag, shapes)(idx)
+	}
+}
+
 func TestVerifC02(t *testing.T) {
 	out := vfOpen(t)
 	defer out.Close()
 	VfC02Register()
 	c02Stored(t, out, func(m string) bool { return m != "gf" }, nil)
+	for _, sc := range vfStored("enum") {
+		var in VfC02EnumIn
+		if err := json.Unmarshal(sc.In, &in); err != nil {
+			t.Fatal(err)
+		}
+		obs := VfC02RunEnum(&in)
+		out.Emit(vfCase{ID: sc.ID, Src: sc.Src, Grp: "enum", In: in, Obs: obs})
+	}
 	if vfReplayOnly() {
 		return
 	}
@@ -48,5 +208,8 @@ func TestVerifC02(t *testing.T) {
 		in := VfC02Gen(r, adv, false)
 		obs := VfC02Run(&in, nil)
 		out.Emit(vfCase{ID: fmt.Sprintf("%s-run-%d", src, i), Src: src, Grp: "run", In: in, Obs: obs})
+	}
+	if !adv {
+		c02Enum(t, out, root, n/6)
 	}
 }
